@@ -148,9 +148,25 @@ class PathCtx(object):
         return None
 
     # ---- obligations
-    def oblige(self, name, goal, meta=None, kind='ensures'):
+    def oblige(self, name, goal, meta=None, kind='ensures', using=None):
         if isinstance(goal, bool):
             goal = z3.BoolVal(goal)
+        if using is not None:
+            # explicit hypothesis selection: every formula must be a current hypothesis (an
+            # assumption, witness fact, path literal or an earlier proved step) -- a subset of
+            # the hypotheses, hence a sound relaxation
+            have = set(h.get_id() for h in self.hyps())
+            sel = []
+            for u in using:
+                if isinstance(u, bool):
+                    if not u:
+                        raise ValueError("`using` contains False")
+                    continue
+                if u.get_id() not in have:
+                    raise ValueError("obligation %s: `using` formula is not a current hypothesis: %s" % (name, str(u)[:200]))
+                sel.append(u)
+            self.obligations.append(Obligation(name, sel, goal, self.path_no, meta, kind, light=None))
+            return
         self.obligations.append(Obligation(name, self.hyps(), goal, self.path_no, meta, kind,
                                            light=list(self.assumes) + list(self.pc)))
 
